@@ -230,6 +230,15 @@ ApWrong(st, a, fr) ==
   THEN OutL(st, "panic", <<>>, <<>>, "panic")
   ELSE Out(st, "panic", <<>>, IF a.ty = "Y8" THEN <<>> ELSE <<fr[1]>>)      \* Y8 has no drop glue: its destruction is not observable
 
+(* a removal handle of a vector of ANOTHER element type offered to push/insert (A1): rejected; the handle is dropped, which     *)
+(* completes the removal on the handle's own vector.  fr[1] = the other vector's single element (destroyed with it either way). *)
+(* ret = that other vector's length at the end: 0 when its element was popped (into_v), 1 -> the element is destroyed with it.  *)
+ApCrossWrong(st, a, fr) ==
+  LET V == st.v[a.v]  n == Len(V.el) IN
+  IF a.dir = "into_v"
+  THEN Out(st, "panic", << <<0, 0>> >>, <<fr[1]>>)
+  ELSE Out(SetV(st, a.v, [V EXCEPT !.el = VPop(@)]), "panic", << <<1, 0>> >>, <<V.el[n][1], fr[1]>>)
+
 (* downcast queries succeed exactly when the requested type is the real one *)
 ApDowncastQ(st, a) == Out(st, IF a.ty = "real" THEN "ok" ELSE "none", <<>>, <<>>)
 
@@ -387,6 +396,7 @@ Apply(st, a, fr) ==
     [] a.op = "raw_roundtrip"      -> ApRaw(st, a)
     [] a.op \in {"push_wrong", "insert_wrong", "swap_wrong", "splice_wrong"} -> ApWrong(st, a, fr)
     [] a.op = "downcast_q"         -> ApDowncastQ(st, a)
+    [] a.op = "cross_wrong"        -> ApCrossWrong(st, a, fr)
     [] a.op = "swap"               -> ApSwap(st, a, fr)
     [] a.op = "spare_write"        -> ApSpareWrite(st, a, fr)
     [] a.op = "place"              -> ApPlace(st, a)
@@ -411,6 +421,7 @@ Applicable(st, a) ==
        [] a.op = "fn_ptrs" -> hk = "none" /\ a.i < Len(st.v[a.v].el)
        [] a.op \in {"raw_roundtrip", "push_wrong", "insert_wrong", "splice_wrong", "place", "push_many"} -> hk = "none"
        [] a.op = "swap_wrong" -> hk = "none" /\ a.i < Len(st.v[a.v].el)
+       [] a.op = "cross_wrong" -> hk = "none" /\ (a.dir = "from_v" => st.v[a.v].el # <<>>)
        [] a.op = "spare_write" -> hk = "none" /\ Len(st.v[a.v].el) + a.k <= st.v[a.v].cap
        [] a.op = "downcast_q" ->
             CASE a.what \in {"vec_ref", "vec_mut"} -> hk = "none"
